@@ -89,6 +89,22 @@ def check(run):
                         n += 1
                         run.check(ok, 'D1', cons if not ok else tag, f'{tag}: ' + ('parsed to the encoded roots' if ok else why), w,
                                   witness=dict(boc=raw.hex()[:300], dag=name))
+    # bags of different constructors / option sets parsed one after the other in the same process: each parse depends on its own bytes only
+    variants = [('generic', dict(has_idx=False, has_crc=False, cache_bits=False)), ('idx', dict(has_idx=True, has_crc=False, cache_bits=False)),
+                ('generic', dict(has_idx=True, has_crc=True, cache_bits=True)), ('idx_crc', dict(has_idx=True, has_crc=True, cache_bits=False)),
+                ('generic', dict(has_idx=False, has_crc=True, cache_bits=False)), ('generic', dict(has_idx=False, has_crc=False, cache_bits=False))]
+    it = Interp(prog)
+    seq_roots = [dags['chain3'], dags['diamond'], dags['single-13bits'], dags['chain3'], dags['four-refs'], dags['diamond']]
+    for step, ((magic, kw), roots) in enumerate(zip(variants + variants[::-1], seq_roots + seq_roots[::-1])):
+        raw, _ = bocspec.encode(roots, magic=magic, **kw)
+        tag = f'parse #{step + 1} in one process: {magic} idx={int(kw["has_idx"])} crc={int(kw["has_crc"])} cache={int(kw["cache_bits"])}'
+        try:
+            res = it.call(it.getattr(prog.cls('Cell'), 'from_boc'), [K(raw)], {})
+            ok, why = roots_match(it, res, roots)
+        except RaiseEx as e:
+            ok, why = False, f'rejected: {e}'
+        run.evaluations += 1
+        run.check(ok, 'D1', 'Boc.deserialize_boc_header[bags parsed earlier in the process]' if not ok else tag, f'{tag}: ' + ('parsed to the encoded roots' if ok else why), w)
     # several roots (generic magic only)
     a, b, sh = dags['chain3'][0], dags['single-13bits'][0], dags['diamond'][0]
     for roots in ([a, b], [b, a, sh], [sh, sh.refs[0]]):
